@@ -105,3 +105,10 @@ Theorem lz4_id5_read_as_bare_block : forall (gz_d zs_d : list N -> N -> res (lis
   decompress_page gz_d zs_d E_CARQUET_COMPRESSION_LZ4_RAW stored cap = Lz4Model.decompress stored cap.
 Proof. exact lz4_id5_read_as_bare_block_thm. Qed.
 Print Assumptions lz4_id5_read_as_bare_block.
+
+(** ... and what the format defines for id 5 - the Hadoop frame - is refused by that decoder for every page below
+    256 MiB (first frame byte < 16): rejected, never decoded to wrong values. *)
+Theorem lz4_hadoop_frame_rejected : forall tok a b rest cap,
+  tok < 16 -> exists e, Lz4Model.decompress (tok :: a :: b :: rest) cap = Err e.
+Proof. exact lz4_hadoop_frame_rejected_thm. Qed.
+Print Assumptions lz4_hadoop_frame_rejected.
